@@ -731,6 +731,12 @@ def _loop_probe(b, info):
         w.violate("C13", "mesh-exponent-not-integer", f"mesh exponent {k} is not an integer")
     if k > cap:
         w.violate("C13", "mesh-above-cap", f"mesh exponent {k} above cap {cap}")
+    try:
+        if float(b.optim_state["search_mesh_size"]) > float(b.optim_state["mesh_size"]):
+            w.violate("C13", "search-mesh-above-poll-mesh", "search mesh exceeds the poll mesh at the end of a loop iteration",
+                      search_mesh=float(b.optim_state["search_mesh_size"]), mesh=float(b.optim_state["mesh_size"]))
+    except (KeyError, TypeError):
+        pass
     # C03(d): bounded non-progress
     if w.nonprog_bound is not None and w.nonprog > w.nonprog_bound:
         w.violate("C03", "non-progress",
@@ -757,7 +763,7 @@ def _make_filter_wrapper(orig):
         U_in = np.array(U, dtype=float, copy=True)
         lb_in = np.array(lb, dtype=float, copy=True)
         ub_in = np.array(ub, dtype=float, copy=True)
-        n_logged = function_logger.X_max_idx + 1
+        n_logged = function_logger.Xn + 1   # the log = its records (independent of the cache bookkeeping index)
         X_logged = function_logger.X[:n_logged].copy()
         out = orig(U, lb, ub, tol_mesh, function_logger, proj, non_box_cons)
         w.filter_calls += 1
@@ -878,7 +884,7 @@ def _make_lgf_wrapper(orig):
         len_scale = gp.temporary_data["len_scale"]
         len_scale = len_scale if np.isscalar(len_scale) else np.array(len_scale, copy=True)
         eff_radius = gp.temporary_data.get("effective_radius")
-        n_logged = function_logger.X_max_idx + 1
+        n_logged = function_logger.Xn + 1   # the log = its records (independent of the cache bookkeeping index)
         Xl = function_logger.X[:n_logged].copy()
         Yl = function_logger.Y[:n_logged].copy()
         Sl = function_logger.S[:n_logged].copy() if function_logger.noise_flag else None
